@@ -14,6 +14,8 @@ LinkEdits == {"name", "mat_path", "prod_path", "mat_digest", "prod_digest", "mat
               "prod_remove", "command_arg", "command_split", "command_add", "stdout", "stdout_trailing_newline",
               "stderr", "retval", "byp_extra_add", "byp_extra_change", "env_to_null", "env_to_empty", "env_add",
               "env_change", "env_key",
+              \* an artifact recorded with two hash algorithms: either digest changed or dropped
+              "two_alg_sha256", "two_alg_sha512", "two_alg_drop256", "two_alg_drop512",
               \* structure-level near collisions: two members folded into one whose NAME spells the
               \* boundary, two array elements folded into one whose content spells the boundary
               "env_fold", "byp_fold", "command_fold", "paths_fold"}
